@@ -6,7 +6,7 @@
    any point, any order of the enabled internal rules. *)
 From Coq Require Import List ZArith Bool.
 Import ListNotations.
-From Goat Require Import Model.Demux Proofs.DemuxProofs.
+From Goat Require Import Model.Demux Proofs.DemuxProofs Proofs.DemuxAlive.
 Open Scope Z_scope.
 
 (* route, exact accounting per connection instance c: what the run loop routed
@@ -112,6 +112,12 @@ Theorem C18_stop_dead : forall ls s, lrun init ls = Some s -> quiescent s = true
   rn s = RNDead /\ forall c, (c < length (conns s))%nat -> dw_dead s c = true.
 Proof. exact C18_stop_dead_l. Qed.
 Print Assumptions C18_stop_dead.
+
+(* the run loop ends only because Stop was called or the shared transport's Read failed: no Cancel(key), envelope,
+   logical Read/Write or cancelled call context ever ends it *)
+Theorem C18_run_alive : forall ls s, lrun init ls = Some s -> rn s = RNDead -> stopped s = true \/ rfail s = true.
+Proof. exact C18_run_alive_l. Qed.
+Print Assumptions C18_run_alive.
 
 (* ---------- the hypotheses are satisfiable ---------- *)
 Definition e1 := mkEnv 7 100.
